@@ -337,11 +337,10 @@ fn run_backends_generic<A: Ar>(spec: &DiffSpec, tag: u64, mut source: impl FnMut
         let m0 = unsafe { std::slice::from_raw_parts(e0.a().raw_ptr(), e0.a().capacity()) };
         let m1 = unsafe { std::slice::from_raw_parts(e1.a().raw_ptr(), e1.a().capacity()) };
         let m2 = unsafe { std::slice::from_raw_parts(e2.a().raw_ptr(), e2.a().capacity()) };
-        // the header struct ends with 4 padding bytes of unspecified content: not part of the comparison
-        let d0 = e0.a().data_offset();
-        let same = |x: &[u8], y: &[u8]| x.len() == y.len() && x[..d0 - 4] == y[..d0 - 4] && x[d0..] == y[d0..];
+        // every byte, the header included (its last 4 bytes used to be implicit padding with stack garbage)
+        let same = |x: &[u8], y: &[u8]| x == y;
         if !same(m0, m1) || !same(m0, m2) {
-            let k = (0..m0.len().min(m1.len()).min(m2.len())).find(|k| !(d0 - 4..d0).contains(k) && (m0[*k] != m1[*k] || m0[*k] != m2[*k]));
+            let k = (0..m0.len().min(m1.len()).min(m2.len())).find(|k| m0[*k] != m1[*k] || m0[*k] != m2[*k]);
             out.viols.push(Violation { prop: "C16", class: "backend_bytes", detail: format!("after {} ops memory() differs between backends at byte {:?} (lengths {}/{}/{})", i, k, m0.len(), m1.len(), m2.len()), op: i });
             break;
         }
